@@ -23,6 +23,9 @@ type cpFlags struct {
 	Chown                     bool // WithChown(4321,4321)
 	Utime                     bool // fixed Utime
 	Mode                      bool // Mode 0640
+	// include / exclude patterns (matched against paths relative to the
+	// copied source directory)
+	Include, Exclude []string
 }
 
 func (f cpFlags) String() string {
@@ -30,7 +33,7 @@ func (f cpFlags) String() string {
 	for _, x := range []struct {
 		on bool
 		n  string
-	}{{f.Follow, "follow"}, {f.Wild, "wild"}, {f.Always, "always"}, {f.CDC, "cdc"}, {f.Chown, "chown"}, {f.Utime, "utime"}, {f.Mode, "mode"}} {
+	}{{f.Follow, "follow"}, {f.Wild, "wild"}, {f.Always, "always"}, {f.CDC, "cdc"}, {f.Chown, "chown"}, {f.Utime, "utime"}, {f.Mode, "mode"}, {len(f.Include) > 0, "include"}, {len(f.Exclude) > 0, "exclude"}} {
 		if x.on {
 			s = append(s, x.n)
 		}
@@ -50,6 +53,8 @@ func (f cpFlags) info() fs.CopyInfo {
 		AlwaysReplaceExistingDestPaths: f.Always,
 		CopyDirContents:                f.CDC,
 	}
+	ci.IncludePatterns = append([]string(nil), f.Include...)
+	ci.ExcludePatterns = append([]string(nil), f.Exclude...)
 	if f.Chown {
 		ci.Chown = func(*fs.User) (*fs.User, error) { return &fs.User{UID: 4321, GID: 4321}, nil }
 	}
